@@ -388,13 +388,172 @@ theorem isLinkType_ltype (k : LinkKind) : isLinkType (ltype k) = true := by case
 theorem ltype_ne_source (k : LinkKind) : ltype k ≠ .source := by cases k <;> decide
 theorem ltype_pump (k : LinkKind) : ltype k = .pump ↔ isPump k = true := by cases k <;> decide
 theorem ltype_valve (k : LinkKind) : ltype k = .valve ↔ isValveKind k = true := by cases k <;> decide
-theorem isPump_headPump : isPump .headPump = true := rfl
-theorem not_isPump_gpv : isPump .gpv = false := rfl
-theorem isValveKind_gpv : isValveKind .gpv = true := rfl
 theorem isPump_iff (k : LinkKind) : isPump k = true ↔ k = .headPump ∨ k = .powerPump := by cases k <;> decide
 theorem nodePatUser_some (k : NodeKind) (u : UKind) : nodePatUser k = some u ↔ (k = .junction ∧ u = .junction) ∨ (k = .reservoir ∧ u = .reservoir) := by
   cases k <;> cases u <;> decide
 theorem isLinkType_iff (u : UKind) : isLinkType u = true ↔ u = .pipe ∨ u = .pump ∨ u = .valve := by cases u <;> decide
+
+/-! ### the three families of typed sets -/
+
+inductive Fam | node | link | curve
+  deriving DecidableEq, Repr
+
+/-- which registry a typed set belongs to -/
+def fam : TSet → Fam
+  | .junctions | .tanks | .reservoirs => .node
+  | .pipes | .pumps | .headPumps | .powerPumps | .prvs | .psvs | .pbvs | .tcvs | .fcvs | .gpvs | .valves => .link
+  | .pumpCurves | .effCurves | .headlossCurves | .volCurves => .curve
+
+theorem mem_nodeSets (t : TSet) : t ∈ nodeSets ↔ fam t = .node := by cases t <;> decide
+theorem mem_allLinkSets (t : TSet) : t ∈ allLinkSets ↔ fam t = .link := by cases t <;> decide
+theorem mem_curveSets (t : TSet) : t ∈ curveSets ↔ fam t = .curve := by cases t <;> decide
+theorem fam_nodeSet (k : NodeKind) : fam (nodeSet k) = .node := by cases k <;> rfl
+theorem fam_curveSet (c : CurveType) : fam (curveSet c) = .curve := by cases c <;> rfl
+theorem fam_of_mem_linkSets (k : LinkKind) (t : TSet) (h : t ∈ linkSets k) : fam t = .link := by
+  revert t; cases k <;> decide
+
+/-! ### the classification tables, one equation per constructor (so that no `match` is ever unfolded) -/
+theorem ltype_pipe : ltype LinkKind.pipe = .pipe := rfl
+theorem isPump_pipe : isPump LinkKind.pipe = false := rfl
+theorem isValveKind_pipe : isValveKind LinkKind.pipe = false := rfl
+theorem ltype_headPump : ltype LinkKind.headPump = .pump := rfl
+theorem isPump_headPump : isPump LinkKind.headPump = true := rfl
+theorem isValveKind_headPump : isValveKind LinkKind.headPump = false := rfl
+theorem ltype_powerPump : ltype LinkKind.powerPump = .pump := rfl
+theorem isPump_powerPump : isPump LinkKind.powerPump = true := rfl
+theorem isValveKind_powerPump : isValveKind LinkKind.powerPump = false := rfl
+theorem ltype_prv : ltype LinkKind.prv = .valve := rfl
+theorem isPump_prv : isPump LinkKind.prv = false := rfl
+theorem isValveKind_prv : isValveKind LinkKind.prv = true := rfl
+theorem ltype_psv : ltype LinkKind.psv = .valve := rfl
+theorem isPump_psv : isPump LinkKind.psv = false := rfl
+theorem isValveKind_psv : isValveKind LinkKind.psv = true := rfl
+theorem ltype_pbv : ltype LinkKind.pbv = .valve := rfl
+theorem isPump_pbv : isPump LinkKind.pbv = false := rfl
+theorem isValveKind_pbv : isValveKind LinkKind.pbv = true := rfl
+theorem ltype_tcv : ltype LinkKind.tcv = .valve := rfl
+theorem isPump_tcv : isPump LinkKind.tcv = false := rfl
+theorem isValveKind_tcv : isValveKind LinkKind.tcv = true := rfl
+theorem ltype_fcv : ltype LinkKind.fcv = .valve := rfl
+theorem isPump_fcv : isPump LinkKind.fcv = false := rfl
+theorem isValveKind_fcv : isValveKind LinkKind.fcv = true := rfl
+theorem ltype_gpv : ltype LinkKind.gpv = .valve := rfl
+theorem isPump_gpv : isPump LinkKind.gpv = false := rfl
+theorem isValveKind_gpv : isValveKind LinkKind.gpv = true := rfl
+theorem linkSets_pipe : linkSets LinkKind.pipe = [.pipes] := rfl
+theorem linkSets_headPump : linkSets LinkKind.headPump = [.pumps, .headPumps] := rfl
+theorem linkSets_powerPump : linkSets LinkKind.powerPump = [.pumps, .powerPumps] := rfl
+theorem linkSets_prv : linkSets LinkKind.prv = [.valves, .prvs] := rfl
+theorem linkSets_psv : linkSets LinkKind.psv = [.valves, .psvs] := rfl
+theorem linkSets_pbv : linkSets LinkKind.pbv = [.valves, .pbvs] := rfl
+theorem linkSets_tcv : linkSets LinkKind.tcv = [.valves, .tcvs] := rfl
+theorem linkSets_fcv : linkSets LinkKind.fcv = [.valves, .fcvs] := rfl
+theorem linkSets_gpv : linkSets LinkKind.gpv = [.valves, .gpvs] := rfl
+theorem isLinkType_pipe : isLinkType UKind.pipe = true := rfl
+theorem isLinkType_pump : isLinkType UKind.pump = true := rfl
+theorem isLinkType_valve : isLinkType UKind.valve = true := rfl
+theorem isLinkType_source : isLinkType UKind.source = false := rfl
+theorem isLinkType_junction : isLinkType UKind.junction = false := rfl
+theorem isLinkType_reservoir : isLinkType UKind.reservoir = false := rfl
+theorem isLinkType_tank : isLinkType UKind.tank = false := rfl
+theorem nodePatUser_junction : nodePatUser NodeKind.junction = some .junction := rfl
+theorem nodePatUser_reservoir : nodePatUser NodeKind.reservoir = some .reservoir := rfl
+theorem nodePatUser_tank : nodePatUser NodeKind.tank = none := rfl
+theorem nodeSet_junction : nodeSet NodeKind.junction = .junctions := rfl
+theorem nodeSet_tank : nodeSet NodeKind.tank = .tanks := rfl
+theorem nodeSet_reservoir : nodeSet NodeKind.reservoir = .reservoirs := rfl
+theorem curveSet_head : curveSet CurveType.head = .pumpCurves := rfl
+theorem curveSet_headloss : curveSet CurveType.headloss = .headlossCurves := rfl
+theorem curveSet_volume : curveSet CurveType.volume = .volCurves := rfl
+theorem curveSet_efficiency : curveSet CurveType.efficiency = .effCurves := rfl
+theorem fam_junctions : fam TSet.junctions = .node := rfl
+theorem fam_tanks : fam TSet.tanks = .node := rfl
+theorem fam_reservoirs : fam TSet.reservoirs = .node := rfl
+theorem fam_pipes : fam TSet.pipes = .link := rfl
+theorem fam_pumps : fam TSet.pumps = .link := rfl
+theorem fam_headPumps : fam TSet.headPumps = .link := rfl
+theorem fam_powerPumps : fam TSet.powerPumps = .link := rfl
+theorem fam_prvs : fam TSet.prvs = .link := rfl
+theorem fam_psvs : fam TSet.psvs = .link := rfl
+theorem fam_pbvs : fam TSet.pbvs = .link := rfl
+theorem fam_tcvs : fam TSet.tcvs = .link := rfl
+theorem fam_fcvs : fam TSet.fcvs = .link := rfl
+theorem fam_gpvs : fam TSet.gpvs = .link := rfl
+theorem fam_valves : fam TSet.valves = .link := rfl
+theorem fam_pumpCurves : fam TSet.pumpCurves = .curve := rfl
+theorem fam_effCurves : fam TSet.effCurves = .curve := rfl
+theorem fam_headlossCurves : fam TSet.headlossCurves = .curve := rfl
+theorem fam_volCurves : fam TSet.volCurves = .curve := rfl
+
+/-- the ground facts of the typed-set tables, as one conjunction (handed to `grind` as a hypothesis) -/
+theorem set_tables :
+    (nodeSet NodeKind.junction = .junctions) ∧
+    (nodeSet NodeKind.tank = .tanks) ∧
+    (nodeSet NodeKind.reservoir = .reservoirs) ∧
+    (curveSet CurveType.head = .pumpCurves) ∧
+    (curveSet CurveType.headloss = .headlossCurves) ∧
+    (curveSet CurveType.volume = .volCurves) ∧
+    (curveSet CurveType.efficiency = .effCurves) ∧
+    (fam TSet.junctions = .node) ∧
+    (fam TSet.tanks = .node) ∧
+    (fam TSet.reservoirs = .node) ∧
+    (fam TSet.pipes = .link) ∧
+    (fam TSet.pumps = .link) ∧
+    (fam TSet.headPumps = .link) ∧
+    (fam TSet.powerPumps = .link) ∧
+    (fam TSet.prvs = .link) ∧
+    (fam TSet.psvs = .link) ∧
+    (fam TSet.pbvs = .link) ∧
+    (fam TSet.tcvs = .link) ∧
+    (fam TSet.fcvs = .link) ∧
+    (fam TSet.gpvs = .link) ∧
+    (fam TSet.valves = .link) ∧
+    (fam TSet.pumpCurves = .curve) ∧
+    (fam TSet.effCurves = .curve) ∧
+    (fam TSet.headlossCurves = .curve) ∧
+    (fam TSet.volCurves = .curve) := by
+  decide
+
+/-- the ground facts of the kind tables -/
+theorem kind_tables :
+    (ltype LinkKind.pipe = .pipe) ∧
+    (isPump LinkKind.pipe = false) ∧
+    (isValveKind LinkKind.pipe = false) ∧
+    (ltype LinkKind.headPump = .pump) ∧
+    (isPump LinkKind.headPump = true) ∧
+    (isValveKind LinkKind.headPump = false) ∧
+    (ltype LinkKind.powerPump = .pump) ∧
+    (isPump LinkKind.powerPump = true) ∧
+    (isValveKind LinkKind.powerPump = false) ∧
+    (ltype LinkKind.prv = .valve) ∧
+    (isPump LinkKind.prv = false) ∧
+    (isValveKind LinkKind.prv = true) ∧
+    (ltype LinkKind.psv = .valve) ∧
+    (isPump LinkKind.psv = false) ∧
+    (isValveKind LinkKind.psv = true) ∧
+    (ltype LinkKind.pbv = .valve) ∧
+    (isPump LinkKind.pbv = false) ∧
+    (isValveKind LinkKind.pbv = true) ∧
+    (ltype LinkKind.tcv = .valve) ∧
+    (isPump LinkKind.tcv = false) ∧
+    (isValveKind LinkKind.tcv = true) ∧
+    (ltype LinkKind.fcv = .valve) ∧
+    (isPump LinkKind.fcv = false) ∧
+    (isValveKind LinkKind.fcv = true) ∧
+    (ltype LinkKind.gpv = .valve) ∧
+    (isPump LinkKind.gpv = false) ∧
+    (isValveKind LinkKind.gpv = true) ∧
+    (isLinkType UKind.pipe = true) ∧
+    (isLinkType UKind.pump = true) ∧
+    (isLinkType UKind.valve = true) ∧
+    (isLinkType UKind.source = false) ∧
+    (isLinkType UKind.junction = false) ∧
+    (isLinkType UKind.reservoir = false) ∧
+    (isLinkType UKind.tank = false) ∧
+    (nodePatUser NodeKind.junction = some .junction) ∧
+    (nodePatUser NodeKind.reservoir = some .reservoir) ∧
+    (nodePatUser NodeKind.tank = none) := by
+  decide
 
 theorem user_eq_mk (u : User) (a : Name) (b : UKind) : u = (a, b) ↔ u.1 = a ∧ u.2 = b := by
   obtain ⟨x, y⟩ := u; simp
